@@ -23,3 +23,9 @@ def collect(P):
     P.int_const("UNION_BUCKET_BITS", rel, r"^const HORIZON_NUM_TINYBITSETS: usize = HORIZON as usize / ([^;]+);", "usize")
     P.int_const("INTERSECTION_DENSITY_THRESHOLD_INVERSE", "src/query/intersection.rs",
                 r"const DENSITY_THRESHOLD_INVERSE: u32 = ([^;]+);", "u32")
+    # shape of BufferedUnionScorer::seek_danger: does it answer `target <= self.doc` from the current document
+    # (before the horizon test)?  1 = yes (fixed shape), 0 = old shape (F131)
+    P.flag("UNION_DANGER_GUARDS_CURRENT_DOC", rel,
+           r"fn seek_danger\(&mut self, target: DocId\) -> SeekDangerResult \{\s*if target >= TERMINATED \{\s*return SeekDangerResult::SeekLowerBound\(TERMINATED\);\s*\}"
+           r"(?:\s*//[^\n]*)*\s*if target <= self\.doc \{\s*return if target == self\.doc \{\s*SeekDangerResult::Found\s*\} else \{\s*SeekDangerResult::SeekLowerBound\(self\.doc\)\s*\};\s*\}"
+           r"\s*if self\.is_in_horizon\(target\)")
